@@ -2,6 +2,7 @@ package mc
 
 import (
 	"fmt"
+	"runtime"
 	"time"
 )
 
@@ -34,6 +35,31 @@ type sthread struct {
 	id     int
 	resume chan struct{}
 	done   bool
+	goid   uint64
+}
+
+// SchedCheckGoroutine makes Point / Blocked ignore calls that do not come from the goroutine of the running scheduler
+// thread. Needed when the library under test starts goroutines of its own: their instrumented code reaches the hooks
+// too, but they are part of the environment (free-running), not threads of the schedule. Costs a goroutine-id lookup
+// per scheduling point, so it is switched on only when the instrumenter saw a go statement in the library.
+var SchedCheckGoroutine bool
+
+func curGoid() uint64 {
+	var buf [64]byte
+	n := runtime.Stack(buf[:], false)
+	// "goroutine 123 [running]:..."
+	var id uint64
+	for _, c := range buf[10:n] {
+		if c < '0' || c > '9' {
+			break
+		}
+		id = id*10 + uint64(c-'0')
+	}
+	return id
+}
+
+func (s *Sched) foreign() bool {
+	return SchedCheckGoroutine && (s.cur < 0 || curGoid() != s.threads[s.cur].goid)
 }
 
 type Sched struct {
@@ -92,7 +118,7 @@ func (s *Sched) decide() int {
 // Point is the scheduling point called from instrumented code (only while a
 // scheduled thread is running).
 func (s *Sched) Point() {
-	if !s.on {
+	if !s.on || s.foreign() {
 		return
 	}
 	s.spin = 0
@@ -112,6 +138,10 @@ func (s *Sched) Point() {
 // without any of them reaching a scheduling point, the execution is deadlocked: it is ended and reported.
 func (s *Sched) Blocked() {
 	if !s.on {
+		return
+	}
+	if s.foreign() {
+		runtime.Gosched()
 		return
 	}
 	me := s.cur
@@ -156,6 +186,9 @@ func (s *Sched) Run(bodies []func() []byte, prefix []int, setOn func(bool)) (*Ex
 		t := s.threads[i]
 		body := bodies[i]
 		go func() {
+			if SchedCheckGoroutine {
+				t.goid = curGoid()
+			}
 			<-t.resume
 			func() {
 				defer func() {
